@@ -38,8 +38,6 @@ def grid(name, tier):
                 except Exception:
                     continue
         pts.append((label, cfg))
-    if tier == 'quick':
-        pts = pts[:6]
     return pts
 
 
@@ -50,6 +48,12 @@ def case_list(name, label, cfg, tier):
         cases.append((p, 6, 'disjoint'))
         if len(p) >= 2:
             cases.append((p, 6, 'repeat'))
+    if label in ('base', 'default', 'default-s256', 'B0', 'B1'):
+        # many encryptions by one scheme object: a periodically reused IV / key stream shows up when the number of
+        # encryptions per setup hits the period (two setups of the same (K, DB) are compared)
+        for p in ([16], [32], [64], [65], [128], [256], [32, 32], [1] * 64, [2] * 64, [64, 64], [96, 32], [100, 28]):
+            cases.append((p, 6, 'disjoint'))
+        cases.append(([64, 64], 6, 'repeat'))
     return sse.dedup_valid(name, cfg, cases)
 
 
